@@ -1,4 +1,12 @@
-(* The internals of mir_eval/hierarchy.py tied to the model by TRANSLATION, part 5: _meet.  Header at the end. *)
+(* The internals of mir_eval/hierarchy.py tied to the model by TRANSLATION, part 5: _meet.
+   [meet_tie]: with _hierarchy_bounds, _round (scalar and array) = the model's and util.index_labels(labels)[0] = ANY list of codes
+   of the length of `labels` in which two codes are equal exactly when the lower-cased labels are (hypotheses on [codes_of];
+   satisfied by the model of Model/Intervals.v: HierTieClosed.codes_model_agree), for every labelled hierarchy (label lists of the length
+   of their level - the model's domain), frame_size > 0 and a non-negative frame count (always true: HierTieClosed.frame_count_nonneg),
+   the generated program returns the dense matrix of Model.Hierarchy.meet or raises what hier_bounds raises.
+   np.equal.outer / np.triu / np.where are read on boolean matrices given by shape and entries ([VBMat]); the pairs np.where yields
+   (row-major) are the model's agree_pairs ([meet_level_cells]); nested loops: [meet_inner_spec], [meet_outer_spec]. The nested loop
+   target `level, (intervals, labels)` is read by the translator as `level, _unpacked_1` followed by `intervals, labels = _unpacked_1`. *)
 From Coq Require Import String.
 From Coq Require Import List Bool Arith ZArith QArith Lia Lqa.
 From ME Require Import Model.Prelude Model.Events Model.Hierarchy Model.HierExp Gen.HierGen.
@@ -145,10 +153,11 @@ Definition meet_fbody := f_body gen__meet.
 Definition meet_names : list string := map fst (f_params gen__meet) ++ f_locals gen__meet.
 Definition menv (vs : list pv) : env := combine meet_names vs.
 Definition meet_outer_body : list stmt := match nth 4 meet_fbody SPass with SFor _ _ b => b | _ => [] end.
-Definition meet_inner_it : exp := match nth 5 meet_outer_body SPass with SFor _ it _ => it | _ => ENone end.
-Definition meet_inner_body : list stmt := match nth 5 meet_outer_body SPass with SFor _ _ b => b | _ => [] end.
+Definition meet_inner_it : exp := match nth 4 meet_outer_body SPass with SFor _ it _ => it | _ => ENone end.
+Definition meet_inner_body : list stmt := match nth 4 meet_outer_body SPass with SFor _ _ b => b | _ => [] end.
+Definition meet_outer_pre : list stmt := Eval cbv in firstn 4 meet_outer_body.
 Definition meet_outer_folded : list stmt :=
-  firstn 5 meet_outer_body ++ [SFor ["seg_i"; "seg_j"]%string meet_inner_it meet_inner_body].
+  meet_outer_pre ++ [SFor ["seg_i"; "seg_j"]%string meet_inner_it meet_inner_body].
 Lemma meet_outer_folded_eq : meet_outer_body = meet_outer_folded. Proof. reflexivity. Qed.
 Definition meet_folded : list stmt :=
   firstn 4 meet_fbody ++ [SFor ["level"; "_unpacked_1"]%string
@@ -183,8 +192,122 @@ Proof.
   - destruct (HP i j (or_introl eq_refl)) as [Hi Hj].
     destruct (mstep_shape n lev fsegs dseg M (i, j) HM HC) as [HM' HC'].
     cbn [map]. rewrite for_loop_cons. unfold for_step at 1. unfold meet_inner_body at 1. unfold meet_outer_body. cbn. unfold builtin. cbn.
-    rewrite !get_item_zmat by (rewrite map_length; assumption). cbn.
-    rewrite !(nth_map_lt frow fsegs _ [] dseg) by assumption. cbn. rewrite set_item_sp, HM, HC. cbn. rewrite zeqb_nat.
-    Show.
-Abort.
+    do 2 (rewrite get_item_zmat by (rewrite map_length; assumption); cbn;
+          rewrite (nth_map_lt frow fsegs _ [] dseg) by assumption; cbn).
+    rewrite set_item_sp, HM, HC. cbn. rewrite zeqb_nat.
+    destruct (IH (mstep n lev fsegs dseg M (i, j)) (zn i) (zn j)
+                 (VSlice (Some (fst (seg_iv (nth i fsegs dseg)))) (Some (snd (seg_iv (nth i fsegs dseg)))))
+                 (VSlice (Some (fst (seg_iv (nth j fsegs dseg)))) (Some (snd (seg_iv (nth j fsegs dseg))))) HM' HC')
+      as (w13 & w14 & w15 & w16 & E); [intros i' j' H'; apply HP; right; exact H'|].
+    exists w13, w14, w15, w16. cbn [fold_left].
+    assert (Hm : mstep n lev fsegs dseg M (i, j)
+                 = let M1 := assign_block M (norm_bound n (fst (seg_iv (nth i fsegs dseg)))) (norm_bound n (snd (seg_iv (nth i fsegs dseg))))
+                                           (norm_bound n (fst (seg_iv (nth j fsegs dseg)))) (norm_bound n (snd (seg_iv (nth j fsegs dseg)))) lev in
+                   if i =? j then M1 else
+                   assign_block M1 (norm_bound n (fst (seg_iv (nth j fsegs dseg)))) (norm_bound n (snd (seg_iv (nth j fsegs dseg))))
+                                   (norm_bound n (fst (seg_iv (nth i fsegs dseg)))) (norm_bound n (snd (seg_iv (nth i fsegs dseg)))) lev).
+    { unfold mstep. cbn [fst snd]. cbv zeta. destruct (i =? j); rewrite !assign_slices_eq2; reflexivity. }
+    cbv zeta in Hm. destruct (i =? j) eqn:Eij; cbn.
+    + rewrite <- Hm. exact E.
+    + rewrite set_item_sp, assign_block_length, assign_block_cols, HM, HC. cbn. rewrite <- Hm. exact E.
+Qed.
+Definition v_labs1 (l : list str) : pv := VList (map VStr l).
+Definition fsegs_of (fs : Q) (lvl : list (Q * Q * str)) : list seg := map (fun s => (frame_iv fs (fst s), snd s)) lvl.
+Definition velem (lvl : list (Q * Q * str)) : pv := VTup [v_level (map fst lvl); v_labs1 (map snd lvl)].
+Lemma meet_inner_it_eval en r c g : lookup "int_agree" en = Some (VBMat r c g) ->
+  eval argsort hier_sigs2 ext en meet_inner_it = OK (VList (map v_npair (true_cells r c g))).
+Proof.
+  intros H. unfold meet_inner_it, meet_outer_body. cbn. unfold read_loc. rewrite H. cbn. unfold builtin. cbn.
+  rewrite !map_map. rewrite (transpose2 (fun p => zn (fst p)) (fun p => zn (snd p))), map_map. reflexivity.
+Qed.
+Lemma frames_rows fs (lvl : list (Q * Q * str)) :
+  map (map HierExp.qtrunc) (map (map (fun t => (t / fs)%Q)) (map (map (fun t => hround t fs)) (map (fun p : Q * Q => [fst p; snd p]) (map fst lvl))))
+  = map frow (fsegs_of fs lvl).
+Proof. unfold fsegs_of. rewrite !map_map. reflexivity. Qed.
+Lemma codes_agree_segs fs lvl i j : i < length (fsegs_of fs lvl) -> j < length (fsegs_of fs lvl) ->
+  (nth i (codes_of (map snd lvl)) 0 =? nth j (codes_of (map snd lvl)) 0) = lab_agree (nth i (fsegs_of fs lvl) dseg) (nth j (fsegs_of fs lvl) dseg).
+Proof.
+  intros Hi Hj. unfold fsegs_of in *. rewrite map_length in Hi, Hj. rewrite Hcodes_agree by (rewrite map_length; assumption).
+  unfold lab_agree, seg_lab.
+  rewrite !(nth_map_lt snd lvl _ [] ((0, 0)%Q, [])) by assumption.
+  rewrite !(nth_map_lt (fun s : Q * Q * str => (frame_iv fs (fst s), snd s)) lvl _ dseg ((0, 0)%Q, [])) by assumption.
+  reflexivity.
+Qed.
+
+Lemma levels_from_cons {X} (step : nat -> mat -> X -> mat) k M x H :
+  levels_from step k M (x :: H) = levels_from step (S k) (step k M x) H.
+Proof. reflexivity. Qed.
+Lemma meet_outer_spec a0 a1 fs a3 a4 n : (0 < fs)%Q -> forall Ls k M v7 v8 v9 v10 v11 v12 v13 v14 v15 v16 v17,
+  length M = n -> snd (mshape M) = n ->
+  exists w7 w8 w9 w10 w11 w12 w13 w14 w15 w16 w17,
+    for_loop (for_step (run_block execx) ["level"; "_unpacked_1"]%string meet_outer_body) (enum_from (Z.of_nat k) (map velem Ls))
+      (menv [a0; a1; VFloat fs; a3; a4; zn n; VSp M; v7; v8; v9; v10; v11; v12; v13; v14; v15; v16; v17])
+    = SNorm (menv [a0; a1; VFloat fs; a3; a4; zn n; VSp (levels_from (meet_level n) k M (map (fsegs_of fs) Ls));
+                   w7; w8; w9; w10; w11; w12; w13; w14; w15; w16; w17]).
+Proof.
+  intros Hfs. induction Ls as [|lvl Ls IH]; intros k M v7 v8 v9 v10 v11 v12 v13 v14 v15 v16 v17 HM HC.
+  - exists v7, v8, v9, v10, v11, v12, v13, v14, v15, v16, v17. reflexivity.
+  - set (fsegs := fsegs_of fs lvl). set (codes := codes_of (map snd lvl)).
+    set (g := fun i j => (i <=? j) && (nth i codes 0 =? nth j codes 0)).
+    assert (Hk : length codes = length fsegs) by (unfold codes, fsegs, fsegs_of; rewrite Hcodes_len, !map_length; reflexivity).
+    destruct (meet_inner_spec a0 a1 (VFloat fs) a3 a4 n k (v_level (map fst lvl)) (v_labs1 (map snd lvl)) (VList (map zn codes))
+                (VBMat (length codes) (length codes) g) fsegs (velem lvl) (true_cells (length codes) (length codes) g) M v13 v14 v15 v16 HM HC)
+      as (u13 & u14 & u15 & u16 & E).
+    { intros i j Hij. apply in_true_cells in Hij. lia. }
+    set (M' := fold_left (mstep n k fsegs dseg) (true_cells (length codes) (length codes) g) M) in *.
+    destruct (fold_mstep_shape n k fsegs dseg (true_cells (length codes) (length codes) g) M HM HC) as [HM' HC'].
+    destruct (IH (S k) M' (zn k) (v_level (map fst lvl)) (v_labs1 (map snd lvl)) (VList (map zn codes))
+                 (VBMat (length codes) (length codes) g) (VZMat (map frow fsegs)) u13 u14 u15 u16 (velem lvl) HM' HC')
+      as (w7 & w8 & w9 & w10 & w11 & w12 & w13 & w14 & w15 & w16 & w17 & E2).
+    exists w7, w8, w9, w10, w11, w12, w13, w14, w15, w16, w17.
+    assert (HML : meet_level n k M fsegs = M').
+    { unfold M'. rewrite (meet_level_cells n k M fsegs dseg codes); [rewrite Hk; reflexivity|].
+      intros i j Hi Hj. apply codes_agree_segs; assumption. }
+    cbn [map]. rewrite levels_from_cons. fold fsegs. rewrite HML.
+    rewrite enum_from_cons, for_loop_cons. unfold for_step at 1. cbn. rewrite meet_outer_folded_eq at 1. unfold meet_outer_folded, meet_outer_pre.
+    cbn. unfold call. rewrite sig2_idx. cbn. unfold v_labs1 at 1. rewrite Hidx. cbn. rewrite get_item_tup0. cbn.
+    unfold builtin. cbn. rewrite as_nvec_zn. cbn. rewrite sig2_round. unfold v_level. cbn. rewrite (Hroundm _ fs Hfs). cbn.
+    unfold bin_op. rewrite (qeqb_pos fs Hfs). cbn. rewrite frames_rows. fold fsegs.
+    erewrite meet_inner_it_eval by reflexivity. cbn [lift_e iter_elems].
+    match goal with |- context [for_loop ?st (map v_npair ?els) ?en] => replace (for_loop st (map v_npair els) en) with
+      (SNorm (menv [a0; a1; VFloat fs; a3; a4; zn n; VSp M'; zn k; v_level (map fst lvl); v_labs1 (map snd lvl); VList (map zn codes);
+                    VBMat (length codes) (length codes) g; VZMat (map frow fsegs); u13; u14; u15; u16; velem lvl]))
+      by (symmetry; exact E) end.
+    cbn [menv]. rewrite zsucc_nat. exact E2.
+Qed.
+Definition v_labels (LL : list (list str)) : pv := VList (map v_labs1 LL).
+Definition lh_labels (L : lhier) : list (list str) := map (map snd) L.
+
+Theorem meet_tie : forall (L : lhier) (fs : Q), (0 < fs)%Q ->
+  (forall b, hier_bounds (lh_intervals L) = Ok b -> (0 <= Hierarchy.qtrunc ((hround (snd b) fs - hround (fst b) fs) / fs))%Z) ->
+  runx gen__meet [v_hier (lh_intervals L); v_labels (lh_labels L); VFloat fs] = lift_res VSp (meet L fs).
+Proof.
+  intros L fs Hfs Hn. unfold run_fun. cbn [length f_params gen__meet Nat.eqb].
+  change (f_body _) with meet_fbody. rewrite meet_folded_eq. unfold exec_block, meet_folded.
+  cbn. unfold builtin. cbn. unfold call. rewrite sig2_bounds. cbn. change (VList (map v_level (lh_intervals L))) with (v_hier (lh_intervals L)).
+  rewrite Hbounds.
+  unfold meet, n_frames. destruct (hier_bounds (lh_intervals L)) as [[a b]|e] eqn:EB; cbn; [|reflexivity].
+  rewrite sig2_round. cbn. rewrite !Hround by exact Hfs. cbn. unfold num_op at 1. cbn. rewrite (qeqb_pos fs Hfs). cbn.
+  specialize (Hn (a, b) eq_refl). cbn [fst snd] in Hn.
+  set (z := HierExp.qtrunc ((hround b fs - hround a fs) / fs)) in *.
+  change (Hierarchy.qtrunc ((hround b fs - hround a fs) / fs)) with z in *.
+  replace (0 <=? z)%Z with true by (symmetry; apply Z.leb_le; exact Hn). cbn.
+  set (n := Z.to_nat z). replace (VInt z) with (zn n) by (unfold zn, n; rewrite Z2Nat.id by exact Hn; reflexivity).
+  unfold lh_intervals, lh_labels. rewrite !map_map.
+  rewrite (transpose2 (fun lvl : list (Q * Q * str) => v_level (map fst lvl)) (fun lvl => v_labs1 (map snd lvl))), map_map.
+  change 1%Z with (Z.of_nat 1).
+  destruct (zeros_shape n) as [HM HC].
+  destruct (meet_outer_spec (v_hier (lh_intervals L)) (v_labels (lh_labels L)) fs (VFloat a) (VFloat b) n Hfs L 1 (repeat (repeat 0 n) n)
+              VUnbound VUnbound VUnbound VUnbound VUnbound VUnbound VUnbound VUnbound VUnbound VUnbound VUnbound HM HC)
+    as (w7 & w8 & w9 & w10 & w11 & w12 & w13 & w14 & w15 & w16 & w17 & E).
+  match goal with |- context [for_loop ?st ?els ?en] => replace (for_loop st els en) with
+    (SNorm (menv [v_hier (lh_intervals L); v_labels (lh_labels L); VFloat fs; VFloat a; VFloat b; zn n;
+                  VSp (levels_from (meet_level n) 1 (repeat (repeat 0 n) n) (map (fsegs_of fs) L));
+                  w7; w8; w9; w10; w11; w12; w13; w14; w15; w16; w17]))
+    by (symmetry; exact E) end.
+  cbn. reflexivity.
+Qed.
 End Meet.
+
+Check meet_tie.
+Print Assumptions meet_tie.
